@@ -1,6 +1,7 @@
 import NixModel.Lemmas.C18Inside
 import NixModel.Lemmas.C18Inv
 import NixModel.Lemmas.C18Names
+import NixModel.Lemmas.C18Content
 
 /-! what every run keeps — for every file (no `Clean` hypothesis), every list of steps, failing steps included -/
 namespace Nix.Upgrade.Lemmas
@@ -195,5 +196,62 @@ theorem failed_keeps_version {lib : List Nat} {r : Nat} {f : File} (h : (upgrade
     cases e with
     | some e => exact hv
     | none => exact absurd rfl h
+
+/-- the only step of a collected list that can fail is a property conversion, and it fails before its first write -/
+theorem head_fail_unchanged {lib : List Nat} {r : Nat} {f f' : File} {s : Step} {rest : List Step} {e : Err}
+    (hwf : WF f) (hc : collect lib f = s :: rest) (hs : applyStep lib r f s = (f', some e)) : f' = f := by
+  rcases head_class hc with rfl | ⟨p, t, rfl, _⟩ | ⟨ap, dn, D, rfl, hd⟩ | rfl
+  · simp only [applyStep] at hs
+    split at hs <;> simp at hs
+  · exact convertProp_fail_unchanged hwf.1 hs
+  · have := (convertDim_head hwf hd hs).1
+    cases this
+  · simp [applyStep] at hs
+
+/-- a failed upgrade leaves exactly what an interruption at a step boundary leaves -/
+theorem failure_is_interruption {lib : List Nat} {r : Nat} : ∀ (n : Nat) (f g : File) (e : Err),
+    (collect lib f).length = n → WF f → upgrade lib r f = (g, some e) →
+    ∃ k, k < n ∧ interrupt lib r k f = (g, none) := by
+  intro n
+  induction n with
+  | zero =>
+    intro f g e hn _ hu
+    have : collect lib f = [] := List.length_eq_zero_iff.mp hn
+    unfold upgrade at hu
+    rw [this] at hu
+    cases hu
+  | succ n ih =>
+    intro f g e hn hwf hu
+    cases hc : collect lib f with
+    | nil => rw [hc] at hn; cases hn
+    | cons s rest =>
+      cases hs : applyStep lib r f s with
+      | mk f' e' =>
+        cases e' with
+        | some e' =>
+          have hf := head_fail_unchanged hwf hc hs
+          subst hf
+          unfold upgrade at hu
+          rw [hc, runSteps_cons, hs] at hu
+          simp only [Prod.mk.injEq] at hu
+          refine ⟨0, by omega, ?_⟩
+          unfold interrupt
+          rw [← hu.1]
+          rfl
+        | none =>
+          obtain ⟨hwf', hc'⟩ := collect_step hwf hc hs
+          have hlen : (collect lib f').length = n := by
+            rw [hc']; rw [hc] at hn; simpa using hn
+          have hu' : upgrade lib r f' = (g, some e) := by
+            unfold upgrade at hu ⊢
+            rw [hc, runSteps_cons, hs] at hu
+            rw [hc']
+            exact hu
+          obtain ⟨k, hk, hi⟩ := ih f' g e hlen hwf' hu'
+          refine ⟨k + 1, by omega, ?_⟩
+          unfold interrupt at hi ⊢
+          rw [hc, List.take_succ_cons, runSteps_cons, hs]
+          rw [hc'] at hi
+          exact hi
 
 end Nix.Upgrade.Lemmas
